@@ -15,7 +15,7 @@ RealChange(o, n, m) ==
 RECURSIVE SumBN(_, _, _)
 SumBN(xs, i, acc) == IF i > Len(xs) THEN acc ELSE SumBN(xs, i + 1, Add(acc, xs[i]))
 Why(c) ==
-  IF c.res = "reject" THEN (IF c.tamper = "none" THEN "honest-psbt-not-summarised" ELSE "")
+  IF c.res = "reject" THEN (IF c.tamper \in {"none", "two-spends-one-address"} THEN "honest-psbt-not-summarised" ELSE "")
   ELSE \* a summary was produced
     IF ~c.inputs_consistent THEN "inconsistent-input-summarised:" \o c.tamper
     ELSE IF \E k \in 1..Len(c.outs) : c.is_change[k] /\ ~RealChange(c.outs[k], c.n, c.m) THEN "output-labelled-change-is-not-real-change:" \o c.tamper
